@@ -212,7 +212,11 @@ def ttl_cases():
                 [[b'pfadd', b'k', b'x']], [[b'pfadd', b'src', b'q'], [b'pfmerge', b'k', b'src'], [b'pfcount', b'k']], [[b'pfmerge', b'k', b'nosuch']],
                 [[b'pfadd', b'src', b'q'], [b'pfmerge', b'src', b'k'], [b'ttl', b'src']], [[b'hincrbyfloat', b'k', b'n', b'1.5']], [[b'decrby', b'k', b'1']],
                 [[b'lpop', b'k']], [[b'sinterstore', b'k', b'k']], [[b'sunionstore', b'k', b'k']], [[b'zinterstore', b'k', b'1', b'k']], [[b'restore', b'k', b'0', b'x', b'replace']],
-                [[b'getrange', b'k', b'0', b'1']], [[b'zremrangebyrank', b'k', b'0', b'0']], [[b'zadd', b'k', b'xx', b'ch', b'7', b'a']]]
+                [[b'getrange', b'k', b'0', b'1']], [[b'zremrangebyrank', b'k', b'0', b'0']], [[b'zadd', b'k', b'xx', b'ch', b'7', b'a']],
+                # deadlines beyond the signed 64-bit millisecond range are refused and change nothing (F36)
+                [[b'expire', b'k', b'9223372036854775807']], [[b'expire', b'k', b'9223372036854775']], [[b'expire', b'k', b'-9223372036854775808']],
+                [[b'pexpire', b'k', b'9223372036854775807']], [[b'pexpire', b'k', b'-9223372036854775808']], [[b'expireat', b'k', b'9223372036854775807']],
+                [[b'expireat', b'k', b'-9223372036854776']], [[b'expire', b'nokey', b'9223372036854775807'], [b'pexpire', b'nokey', b'9223372036854775807']]]
         for a in acts:
             yield pre + a + after
             # the same with the clock moved past the deadline before and after the action
